@@ -50,20 +50,23 @@ pb = ProgressBar("n", "c", 33, 100, "s")
 show("F7  utf-8, 1 column: row widths", lambda: widths(pb.render((1,))))
 urwid.set_encoding("ascii")
 show("F7b ascii, 12 columns: row widths", lambda: widths(pb.render((12,))))
-# F9 Overlay with height='pack' over a top widget without rows (found once Pile([]) was generated, after ba7db6e)
+# F9 (repaired by f9cf74e) Overlay with height='pack' over a top widget without rows
 o = Overlay(Pile([]), SolidFill("x"), "left", 3, "top", "pack")
 show("F9  Overlay(Pile([]), SolidFill('x'), 'left', 3, 'top', 'pack').render((5, 3))", lambda: (o.render((5, 3)).cols(), o.render((5, 3)).rows()))
 o = Overlay(Pile([]), SolidFill("x"), "left", 1, "bottom", "pack", min_width=1, min_height=1, left=2, right=1)
 show("F9b valign='bottom', render((1, 7))", lambda: (o.render((1, 7)).cols(), o.render((1, 7)).rows()))
 o = Overlay(Pile([]), SolidFill("x"), "left", ("relative", 50), "top", "pack", min_width=3, min_height=1, left=3, top=3)
 show("F9c flow render((1,)) with top=3", lambda: (o.render((1,)).cols(), o.render((1,)).rows()))
-# F10 a padded 0-row canvas keeps its 0-row shard; trimming/overlaying such a canvas gives ragged rows
+# F10 (repaired by 69bd6e4) a padded 0-row canvas kept its 0-row shard; trimming/overlaying such a canvas gave ragged rows
 c = urwid.Columns([(1, Text("a")), Pile([])])
 show("F10  Columns([(1, Text('a')), Pile([])]).render((4,)): rows of the shards", lambda: [n for n, _ in c.render((4,)).shards])
 o = Overlay(SolidFill("x"), urwid.Filler(c, "top"), "left", 1, "top", 1, left=1)
 show("F10b Overlay over it, render((4, 2)): row widths (canvas.cols() is 4)", lambda: widths(o.render((4, 2))))
 pc = Padding(urwid.Columns([Text("a"), (4, Pile([]))], dividechars=1, min_width=2), "left", "clip", left=1, right=1)
 show("F10c clip Padding of such Columns, render((1,)): row widths (canvas.cols() is 1)", lambda: widths(pc.render((1,))))
+# F11 Overlay(width='pack') over a FIXED top widget that packs to 0 rows: explicit OverlayError (known finding)
+o = Overlay(Padding(Pile([]), "left", 7, min_width=4, right=2), SolidFill("x"), "left", "pack", "top", ("relative", 50), min_width=1, right=1, bottom=1)
+show("F11 Overlay(Padding(Pile([]), 'left', 7, 4, 0, 2), ..., 'pack', 'top', ('relative', 50)).render((2, 9))", lambda: o.render((2, 9)))
 # F8 zero-width combining character under a narrow encoding
 urwid.set_encoding("euc-jp")
 show("F8  Text('a\\u0301b', align='right').render((9,)) under euc-jp", lambda: Text("áb", align="right").render((9,)).text)
